@@ -86,7 +86,7 @@ func symVal(name string) (bool, float64, LValue) {
 	return false, f, LNumber(f)
 }
 
-//verif:harness prop=C09 tier=quick qparams=steps:2,npool:2,nops:2 tparams=steps:2,npool:11,nops:4 bounds="histories of steps=2 stores; quick: 2 store operations and 2 pool numbers, thorough: 4 operations and 10 pool numbers; (RawSet/RawSetInt/RawSetString/RawSetH/LState.RawSet) from an empty table; keys: any 32-bit integer-valued number or one of 10 pool numbers (non-integral, huge, boundary) / 1-byte string / bool; MaxArrayIndex configured to 6 so the array part stays <= 5 slots; values nil or any float64; one symbolic probe key"
+//verif:harness prop=C09 tier=quick qparams=steps:2,npool:2,nops:2 tparams=steps:2,npool:6,nops:4 tmaxpaths=900000 bounds="histories of steps=2 stores; quick: 2 store operations and 2 pool numbers, thorough: 4 operations and 6 pool numbers; (RawSet/RawSetInt/RawSetString/RawSetH/LState.RawSet) from an empty table; keys: any 32-bit integer-valued number or one of 10 pool numbers (non-integral, huge, boundary) / 1-byte string / bool; MaxArrayIndex configured to 6 so the array part stays <= 5 slots; values nil or any float64; one symbolic probe key"
 //verif:assume MaxArrayIndex (a package configuration variable) is set to 6: integer keys 1..5 use the array part, all other numbers the hash part
 func H_C09_map() {
 	MaxArrayIndex = 6
